@@ -800,6 +800,21 @@ func (c *collection) validateLifetimes() error {
 				continue
 			}
 
+			// A dependency on a group is a dependency on each of its members
+			if dep.Group != "" {
+				for _, member := range c.groups[GroupKey{Type: dep.Type, Group: dep.Group}] {
+					if member != nil && member.Lifetime == Scoped {
+						return &LifetimeConflictError{
+							ServiceType:        descriptor.Type,
+							ServiceLifetime:    descriptor.Lifetime,
+							DependencyType:     dep.Type,
+							DependencyLifetime: member.Lifetime,
+						}
+					}
+				}
+				continue
+			}
+
 			depKey := instanceKey{Type: dep.Type, Key: dep.Key, Group: dep.Group}
 			depLifetime, ok := lifetimes[depKey]
 			if !ok {
